@@ -11,6 +11,9 @@ A *case* is a jsonable dict describing one call of `draw()`:
            v_align, pad_height), repeat, cached, check_size, scroll, src 'pil'|'file', dyn (dynamic size),
            cell (pixel size of a cell), compress
   C07      buffering 'none'|'full'|'line' (delivery discipline of the virtual stdout, see world.VStdout)
+  history  term0 (terminal size at the start), pre: steps executed before the judged draw in the same world on
+           the same object - {"op": "draw", "kw": {overrides}} | {"op": "resize", "term": (c, r)} |
+           {"op": "attrs", "set": "cooked"|"noecho"|"raw"}; `term` is the size at the judged draw
 
 `execute(case, plan, on_frame)` runs the real `draw()` against a VStdout/VTerm/VTty world and returns a
 `Run`; `expected(case)` is the reference (geometry of the padded region and the documented validation
@@ -200,7 +203,7 @@ def new_renderable(case):
         # INDEFINITE frame count: a stream of case["frames"] frames
         FC = world.load().renderable.FrameCount
         return ns.make(FC.INDEFINITE, tuple(case["size"]), 100, case.get("mode", "plain"),
-                       stream_len=case["frames"], cls=cls)
+                       stream_len=case["frames"], cls=cls, number_mode=case.get("number_mode", "position"))
     r = ns.make(case["frames"], tuple(case["size"]), 100, case.get("mode", "plain"), cls=cls)
     if case.get("seek"):
         r.seek(case["seek"])
@@ -218,17 +221,30 @@ def new_padding(case, L=None):
     return P.ExactPadding(left, top, right, bottom, fill)
 
 
+ATTR_SETS = {"cooked": dict(), "noecho": dict(echo=False),
+             "raw": dict(canonical=False, echo=False, vmin=0, vtime=3)}
+
+
+def resize(tty, cols, rows, cell=CELL):
+    """The user resizes the terminal window (same cell size)."""
+    tty.cols, tty.rows = cols, rows
+    if tty.xpx or tty.ypx:
+        tty.xpx, tty.ypx = cols * cell[0], rows * cell[1]
+
+
 def execute(case, plan=None, on_frame=None, prepare=None):
     """Run the real draw() for *case*.  `on_frame(run, j)` is called when the j-th drawn frame is
     completely on the screen (before the sleep that follows it)."""
     L = world.load()
     cols, rows = case["term"]
     ident = case.get("ident", "other")
+    cell = tuple(case.get("cell") or CELL)
     term = make_term(cols, rows, ident, case["row0"])
     stdout = world.VStdout(term=term, isatty=case.get("isatty", True), plan=None,
                            buffering=case.get("buffering", "none"))
     clock = Clock(stdout)
-    tty = world.setup(ident, cols, rows, cell=tuple(case.get("cell") or CELL), stdout=stdout, clock=clock)
+    cols0, rows0 = case.get("term0") or (cols, rows)      # terminal size before the history `pre`
+    tty = world.setup(ident, cols0, rows0, cell=cell, stdout=stdout, clock=clock)
     run = Run()
     run.case, run.term, run.stdout, run.clock, run.tty = case, term, stdout, clock, tty
     run.exc = None
@@ -244,8 +260,8 @@ def execute(case, plan=None, on_frame=None, prepare=None):
                       allow_scroll=case.get("allow_scroll", False),
                       hide_cursor=case.get("hide_cursor", True), echo_input=case.get("echo_input", False))
 
-            def call():
-                subj.draw(None, pad, **kw)
+            def call(**over):
+                subj.draw(None, pad, **dict(kw, **over))
 
             run.state = lambda: (subj.tell(), tuple(subj.render_size))
         else:
@@ -257,12 +273,32 @@ def execute(case, plan=None, on_frame=None, prepare=None):
                       check_size=case.get("check_size", True))
             kw.update(old_style_args(case))
 
-            def call():
-                subj.draw(ha, pw, va, ph, **kw)
+            def call(**over):
+                subj.draw(ha, pw, va, ph, **dict(kw, **over))
 
             run.state = lambda: (subj.tell(), subj.size if case.get("dyn") else tuple(subj.size),
                                  subj._size)
         run.subject = subj
+        # ---- history inside this execution (same world, same subject): earlier draws, a terminal resize,
+        # a change of the tty attributes; their output goes to a scratch screen
+        run.pre_log = []
+        for step in case.get("pre") or ():
+            if step["op"] == "resize":
+                resize(tty, *step["term"], cell)
+            elif step["op"] == "attrs":
+                tty.attrs = world.default_attrs(**ATTR_SETS[step["set"]])
+            elif step["op"] == "draw":
+                stdout.term = make_term(tty.cols, tty.rows, ident, 0)
+                try:
+                    call(**(step.get("kw") or {}))
+                    run.pre_log.append(("draw", None, repr(getattr(subj, "size", None))))
+                except Exception as e:
+                    run.pre_log.append(("draw", type(e).__name__, repr(getattr(subj, "size", None))))
+                stdout._handover()
+        if (tty.cols, tty.rows) != (cols, rows):
+            resize(tty, cols, rows, cell)
+        stdout.term = term
+        del stdout.data[:]
         if prepare is not None:
             prepare(run)
         run.attrs_before = [x if not isinstance(x, list) else list(x) for x in tty.attrs]
